@@ -1180,10 +1180,16 @@ func runUndecidedEqualityNotMatch(rr *RuleRun) {
 		for _, list := range lists {
 			for i, st := range list {
 				as, ok := st.(*ast.AssignStmt)
-				if !ok || len(as.Lhs) != 1 || len(as.Rhs) != 1 {
+				if !ok || len(as.Rhs) != 1 || len(as.Lhs) < 1 || len(as.Lhs) > 2 {
 					continue
 				}
-				call, ok := as.Rhs[0].(*ast.CallExpr)
+				call, ok := ast.Unparen(as.Rhs[0]).(*ast.CallExpr)
+				if ok && isCall(info, call, "cty.Value.Unmark", "cty.Value.UnmarkDeep") {
+					// eq, _ := a.Equals(b).Unmark()
+					call, ok = ast.Unparen(call.Fun.(*ast.SelectorExpr).X).(*ast.CallExpr)
+				} else if len(as.Lhs) != 1 {
+					continue
+				}
 				if !ok || !isCall(info, call, "cty.Value.Equals") {
 					continue
 				}
@@ -1199,6 +1205,7 @@ func runUndecidedEqualityNotMatch(rr *RuleRun) {
 				switch nx := list[i+1].(type) {
 				case *ast.IfStmt:
 					rejects := false
+					_ = nx
 					if nx.Else == nil && len(nx.Body.List) > 0 {
 						if r, ok := nx.Body.List[len(nx.Body.List)-1].(*ast.ReturnStmt); ok && len(r.Results) == 1 {
 							if tv, ok := info.Types[r.Results[0]]; ok && tv.Value != nil && tv.Value.String() == "false" {
@@ -3412,4 +3419,323 @@ func runNoShallowBigCopy(rr *RuleRun) {
 			return true
 		})
 	})
+}
+
+// ---------------------------------------------------------------------------
+
+func init() {
+	register(&Rule{
+		ID: "C12.set-members-to-sequence-needs-wholly-known", Prop: "C12", Also: []string{"C11", "C13"}, Floor: 1, Controls: 0,
+		Doc: "a standard function whose Type callback accepts a set for an argument and whose Impl callback lays the members of that argument out as a sequence (AsValueSlice / ElementIterator feeding ListVal or TupleVal) first establishes that the argument is wholly known: a set holding unknown members may coalesce once they are known, so the number of members stored is only an upper bound of its length, and a known list built from them claims a definite length — and definite positions — that the concrete result need not have",
+		Run: runSetMembersToSequence,
+	})
+}
+
+func runSetMembersToSequence(rr *RuleRun) {
+	c := rr.Ctx
+	pkg := "cty/function/stdlib"
+	info := c.Info(pkg)
+	n := 0
+	for _, sp := range findSpecs(c, pkg) {
+		tcb, ok1 := ast.Unparen(sp.TypeCB).(*ast.FuncLit)
+		icb, ok2 := ast.Unparen(sp.ImplCB).(*ast.FuncLit)
+		if !ok1 || !ok2 {
+			continue
+		}
+		// does the Type callback accept a set? a case / condition with IsSetType() whose branch returns a nil error
+		acceptsSet := false
+		inspectNoLit(tcb.Body, func(m ast.Node) bool {
+			cc, ok := m.(*ast.CaseClause)
+			if !ok {
+				return true
+			}
+			has := false
+			for _, e := range cc.List {
+				ast.Inspect(e, func(q ast.Node) bool {
+					if call, ok := q.(*ast.CallExpr); ok {
+						if se, ok := call.Fun.(*ast.SelectorExpr); ok && se.Sel.Name == "IsSetType" && isCtyType(info.TypeOf(se.X)) {
+							has = true
+						}
+					}
+					return true
+				})
+			}
+			if !has {
+				return true
+			}
+			for _, st := range cc.Body {
+				if r, ok := st.(*ast.ReturnStmt); ok && len(r.Results) == 2 && isNilIdent(info, r.Results[1]) {
+					acceptsSet = true
+				}
+			}
+			return true
+		})
+		if !acceptsSet || len(icb.Type.Params.List) == 0 || len(icb.Type.Params.List[0].Names) == 0 {
+			continue
+		}
+		argsObj := info.Defs[icb.Type.Params.List[0].Names[0]]
+		// subjects: args[i] and its unmarked rebinding
+		subj := map[types.Object]bool{}
+		inspectNoLit(icb.Body, func(m ast.Node) bool {
+			as, ok := m.(*ast.AssignStmt)
+			if !ok || len(as.Rhs) != 1 {
+				return true
+			}
+			src := ast.Unparen(as.Rhs[0])
+			if call, ok := src.(*ast.CallExpr); ok && isCall(info, call, "cty.Value.Unmark", "cty.Value.UnmarkDeep") {
+				src = ast.Unparen(call.Fun.(*ast.SelectorExpr).X)
+			}
+			if ix, ok := src.(*ast.IndexExpr); ok && objOf(info, ix.X) == argsObj {
+				if o := objOf(info, as.Lhs[0]); o != nil {
+					subj[o] = true
+				}
+			}
+			return true
+		})
+		buildsSeq := false
+		inspectNoLit(icb.Body, func(m ast.Node) bool {
+			if call, ok := m.(*ast.CallExpr); ok && isCall(info, call, "cty.ListVal", "cty.TupleVal") {
+				buildsSeq = true
+			}
+			return true
+		})
+		if !buildsSeq {
+			continue
+		}
+		cf := c.CondFacts(icb.Body, info, nil)
+		inspectNoLit(icb.Body, func(m ast.Node) bool {
+			call, ok := m.(*ast.CallExpr)
+			if !ok || !isCall(info, call, "cty.Value.AsValueSlice", "cty.Value.ElementIterator", "cty.Value.LengthInt") {
+				return true
+			}
+			x := ast.Unparen(call.Fun.(*ast.SelectorExpr).X)
+			o := objOf(info, x)
+			isArg := o != nil && subj[o]
+			if ix, ok := x.(*ast.IndexExpr); ok && objOf(info, ix.X) == argsObj {
+				isArg = true
+			}
+			if !isArg {
+				return true
+			}
+			n++
+			key := fmt.Sprintf("%s.%s.Impl/%s(%s)#%d", pkg, sp.Name, call.Fun.(*ast.SelectorExpr).Sel.Name, trunc(exprStr(x), 20), n)
+			wholly := cf.HoldsAt(call, func(cond ast.Expr, truth bool) bool {
+				cl, ok := ast.Unparen(cond).(*ast.CallExpr)
+				if !ok || !truth {
+					return false
+				}
+				se, ok := cl.Fun.(*ast.SelectorExpr)
+				return ok && se.Sel.Name == "IsWhollyKnown" && isCtyValue(info.TypeOf(se.X))
+			})
+			notSet := cf.HoldsAt(call, func(cond ast.Expr, truth bool) bool {
+				cl, ok := ast.Unparen(cond).(*ast.CallExpr)
+				if !ok || truth {
+					return false
+				}
+				se, ok := cl.Fun.(*ast.SelectorExpr)
+				return ok && se.Sel.Name == "IsSetType"
+			})
+			// an earlier top-level exit taken for 'a set that is not wholly known'
+			guarded := false
+			for _, st := range icb.Body.List {
+				ifs, ok := st.(*ast.IfStmt)
+				if !ok || ifs.Pos() > call.Pos() || len(ifs.Body.List) == 0 {
+					continue
+				}
+				if _, isRet := ifs.Body.List[len(ifs.Body.List)-1].(*ast.ReturnStmt); !isRet {
+					continue
+				}
+				setT, notWK := false, false
+				for _, term := range splitAnd(ifs.Cond) {
+					t := ast.Unparen(term)
+					if cl, ok := t.(*ast.CallExpr); ok {
+						if se, ok := cl.Fun.(*ast.SelectorExpr); ok && se.Sel.Name == "IsSetType" {
+							setT = true
+						}
+					}
+					if u, ok := t.(*ast.UnaryExpr); ok && u.Op == token.NOT {
+						if cl, ok := ast.Unparen(u.X).(*ast.CallExpr); ok {
+							if se, ok := cl.Fun.(*ast.SelectorExpr); ok && se.Sel.Name == "IsWhollyKnown" {
+								notWK = true
+							}
+						}
+					}
+				}
+				if notWK && (setT || len(splitAnd(ifs.Cond)) == 1) {
+					guarded = true
+				}
+			}
+			switch {
+			case wholly || guarded:
+				rr.OK(key, call.Pos(), "the argument was established wholly known (a set that is not wholly known took an earlier exit)")
+			case notSet:
+				rr.OK(key, call.Pos(), "reached only for an argument that is not a set")
+			default:
+				rr.Violation(key, call.Pos(), fmt.Sprintf("%s accepts a set for this argument and lays its stored members out as a list / tuple here without having established that the argument is wholly known (or is not a set): a set with unknown members may shrink when they become known, so the known sequence returned has a definite length the concrete result need not have", sp.Name))
+			}
+			return true
+		})
+	}
+}
+
+// ---------------------------------------------------------------------------
+
+func init() {
+	register(&Rule{
+		ID: "C16.refinement-blob-within-decoder-limit", Prop: "C16", Floor: 1, Controls: 0,
+		Doc: "the MessagePack encoder writes the refinements of an unknown value as an extension body only after comparing the body's size with a constant no larger than the limit above which the decoder rejects such a body ('oversize unknown value refinement'): the prefix is truncated for this reason, but a numeric bound is written as decimal text of any length — Marshal succeeds and Unmarshal then refuses Marshal's own output; dropping the refinements (a wider range) is always allowed, failing the round trip is not",
+		Run: runRefinementBlobWithinLimit,
+	})
+}
+
+func runRefinementBlobWithinLimit(rr *RuleRun) {
+	c := rr.Ctx
+	pkg := "cty/msgpack"
+	info := c.Info(pkg)
+	enc := rr.MustDecl(pkg, "marshalUnknownValue")
+	dec := rr.MustDecl(pkg, "unmarshalUnknownValue")
+	if enc == nil || dec == nil {
+		return
+	}
+	// the decoder's limit: if extLen > K { return … error }
+	limit := int64(-1)
+	inspectNoLit(dec.Body, func(n ast.Node) bool {
+		ifs, ok := n.(*ast.IfStmt)
+		if !ok || len(ifs.Body.List) == 0 {
+			return true
+		}
+		be, ok := ast.Unparen(ifs.Cond).(*ast.BinaryExpr)
+		if !ok || be.Op != token.GTR {
+			return true
+		}
+		k, isConst := constInt(info, be.Y)
+		if !isConst || k < 16 {
+			return true
+		}
+		if _, isRet := ifs.Body.List[len(ifs.Body.List)-1].(*ast.ReturnStmt); isRet && k > limit {
+			limit = k
+		}
+		return true
+	})
+	key := pkg + ".marshalUnknownValue/EncodeExtHeader size"
+	if limit < 0 {
+		rr.Assumed(key, dec.Pos(), "the decoder has no size limit of the form `if extLen > K { return error }`: nothing to agree with")
+		return
+	}
+	var hdr *ast.CallExpr
+	inspectNoLit(enc.Body, func(n ast.Node) bool {
+		if call, ok := n.(*ast.CallExpr); ok && len(call.Args) == 2 {
+			if f := callee(info, call); f != nil && f.Name() == "EncodeExtHeader" {
+				hdr = call
+			}
+		}
+		return true
+	})
+	if hdr == nil {
+		rr.Assumed(key, enc.Pos(), "the encoder does not call EncodeExtHeader: written in a form this rule does not follow")
+		return
+	}
+	cf := c.CondFacts(enc.Body, info, nil)
+	sizeStr := exprStr(ast.Unparen(hdr.Args[1]))
+	sizeObj := objOf(info, hdr.Args[1])
+	isSize := func(e ast.Expr) bool {
+		e = ast.Unparen(e)
+		if sizeObj != nil && objOf(info, e) == sizeObj {
+			return true
+		}
+		if exprStr(e) == sizeStr {
+			return true
+		}
+		// the local the size was computed into
+		if sizeObj != nil {
+			return false
+		}
+		return false
+	}
+	bounded := cf.HoldsAt(hdr, func(cond ast.Expr, truth bool) bool {
+		be, ok := ast.Unparen(cond).(*ast.BinaryExpr)
+		if !ok {
+			return false
+		}
+		if k, isConst := constInt(info, be.Y); isConst && isSize(be.X) && k <= limit {
+			return (be.Op == token.GTR && !truth) || (be.Op == token.LEQ && truth) || (be.Op == token.GEQ && !truth && k <= limit) || (be.Op == token.LSS && truth)
+		}
+		return false
+	})
+	if bounded {
+		rr.OK(key, hdr.Pos(), fmt.Sprintf("the body size was compared with a constant within the decoder's limit of %d bytes", limit))
+	} else {
+		rr.Violation(key, hdr.Pos(), fmt.Sprintf("the refinement body is written with whatever size it has (%s), while the decoder rejects a body of more than %d bytes: a numeric bound with a long decimal expansion (1e1100) makes Marshal produce something Unmarshal refuses — compare the size with the limit first and fall back to the unrefined encoding", sizeStr, limit))
+	}
+}
+
+// ---------------------------------------------------------------------------
+
+func init() {
+	register(&Rule{
+		ID: "C19.path-key-comparison-sees-through-marks", Prop: "C19", Floor: 1, Controls: 0,
+		Doc: "where path steps are compared, the cty.Value answer of Key.Equals(Key) is stripped of marks (Unmark) before True() / False() reads it: the keys of index steps are arbitrary values and may be marked, the answer then carries their marks, and True() / False() panic on a marked value — IndexStep.Apply already unmarks the answer of HasIndex for the same reason; a path set must not panic on a path it was handed by UnmarkDeepWithPaths-style code",
+		Run: runPathKeyComparisonMarks,
+	})
+}
+
+func runPathKeyComparisonMarks(rr *RuleRun) {
+	c := rr.Ctx
+	pkg := "cty"
+	info := c.Info(pkg)
+	isStepKey := func(e ast.Expr) bool {
+		se, ok := ast.Unparen(e).(*ast.SelectorExpr)
+		return ok && se.Sel.Name == "Key" && namedTypeNoPtr(info.TypeOf(se.X)) == "cty.IndexStep"
+	}
+	n := 0
+	for _, fd := range c.SortedDecls(pkg) {
+		if fd.Body == nil {
+			continue
+		}
+		inspectNoLit(fd.Body, func(nd ast.Node) bool {
+			as, ok := nd.(*ast.AssignStmt)
+			if !ok || len(as.Rhs) != 1 {
+				return true
+			}
+			rhs := ast.Unparen(as.Rhs[0])
+			unmarked := false
+			if call, ok := rhs.(*ast.CallExpr); ok && isCall(info, call, "cty.Value.Unmark", "cty.Value.UnmarkDeep") {
+				unmarked = true
+				rhs = ast.Unparen(call.Fun.(*ast.SelectorExpr).X)
+			}
+			call, ok := rhs.(*ast.CallExpr)
+			if !ok || !isCall(info, call, "cty.Value.Equals", "cty.Value.RawEquals") || len(call.Args) != 1 {
+				return true
+			}
+			if !isStepKey(call.Fun.(*ast.SelectorExpr).X) && !isStepKey(call.Args[0]) {
+				return true
+			}
+			if isCall(info, call, "cty.Value.RawEquals") {
+				return true // a Go bool
+			}
+			eq := objOf(info, as.Lhs[0])
+			if eq == nil {
+				return true
+			}
+			n++
+			key := fmt.Sprintf("%s.%s/%s#%d", pkg, declName(fd), trunc(exprStr(call), 40), n)
+			// is the answer read with True() / False()?
+			reads := false
+			inspectNoLit(fd.Body, func(m ast.Node) bool {
+				if cl, ok := m.(*ast.CallExpr); ok && methodCond(info, cl, eq, "True", "False") {
+					reads = true
+				}
+				return true
+			})
+			switch {
+			case !reads:
+				rr.OK(key, as.Pos(), "the answer is not read with True() / False()")
+			case unmarked:
+				rr.OK(key, as.Pos(), "the answer is unmarked before it is read")
+			default:
+				rr.Violation(key, as.Pos(), fmt.Sprintf("%s is the answer of comparing two index-step keys, which may be marked, and it is read with True() / False() without having been unmarked: for a path whose key carries a mark the comparison panics ('value is marked, so must be unmarked first'), so the path set cannot hold such a path", eq.Name()))
+			}
+			return true
+		})
+	}
 }
